@@ -12,6 +12,7 @@ from fractions import Fraction as Fr
 import numpy as np
 
 from harness import splineoracle as so
+from harness.core import to_int
 from harness import simlayout as sl
 from harness.scenarios import STD, CONSTANTS
 
@@ -145,7 +146,7 @@ def run(ctx):
                     for (pt_, val) in out[rk]:
                         gr, k, gz = pt_
                         y = val.real * L / h
-                        events.append({"k": "rho", "IL": IL, "c": coeffs[gr][k][gz], "got": int(round(y)),
+                        events.append({"k": "rho", "IL": IL, "c": coeffs[gr][k][gz], "got": to_int(y),
                                        "exact": bool(abs(y - round(y)) < 1e-4 * max(1.0, abs(y) * 1e-4)), "ok": True, "im": bool(abs(val.imag) < 1e-12)})
                         meta.append(dict(m0, point=pt_, rank=rk))
         c1 = [rng.randint(-9, 9) for _ in range(sp.nb)]
@@ -164,10 +165,10 @@ def run(ctx):
             pt.get_rho(r1, g, q)
             pt.get_perturbed_rho(r2, fe, g, q)
             for i in range(n):
-                events.append({"k": "rho", "IL": [int(x) for x in q], "c": [int(x) for x in g[i, m - 1, 0, :]], "got": int(round(r1[i, m - 1, 0].real)),
+                events.append({"k": "rho", "IL": [int(x) for x in q], "c": [int(x) for x in g[i, m - 1, 0, :]], "got": to_int(r1[i, m - 1, 0].real),
                                "exact": True, "ok": True, "im": bool(np.all(np.imag(r1) == 0))})
                 meta.append({"what": "kernel get_rho", "dtype": np.dtype(dtype).name, "case": t, "i": i})
-                events.append({"k": "rho", "IL": [int(x) for x in q], "c": [int(x) for x in (g[i, 0, p - 1, :] - fe[i, :])], "got": int(round(r2[i, 0, p - 1].real)),
+                events.append({"k": "rho", "IL": [int(x) for x in q], "c": [int(x) for x in (g[i, 0, p - 1, :] - fe[i, :])], "got": to_int(r2[i, 0, p - 1].real),
                                "exact": True, "ok": True, "im": bool(np.all(np.imag(r2) == 0))})
                 meta.append({"what": "kernel get_perturbed_rho (row i of the equilibrium table)", "dtype": np.dtype(dtype).name, "case": t, "i": i})
     # equilibrium
